@@ -29,7 +29,7 @@ MUST = ["transcripts", "interleavings_compared", "concurrent_interleavings", "sn
         "cross_family_pairs", "same_template_pairs", "requests_compared", "concurrent_with_fragmented_answers", "long_history_pairs"]
 EXHAUSTIVE = {"quick": False, "thorough": False}
 
-TEMPLATES = ["ET205", "ET205g", "ET745", "ETv1", "ETf", "DT", "DTu", "ESv1", "ESv2", "ESv2g"]
+TEMPLATES = ["ET205", "ET205g", "ET205u", "ET745", "ETv1", "ETf", "ETc", "DT", "DTu", "DTc", "ESv1", "ESv2", "ESv2g"]
 
 
 # ---- worker side: one transcript per interpreter -------------------------------------------------------------------
@@ -47,6 +47,8 @@ def build_sim(tpl, seed, owner):
                 power.to_bytes(2, "big", signed=True) + rnd.randrange(0, 101).to_bytes(2, "big") + (0x0FFF if typ == 6 else 0).to_bytes(2, "big")
             if tpl == "ET205g" and gi == 0:
                 b = bytes([99, 99, 99, 99]) + b[4:]
+            if tpl == "ET205u" and gi == 0:       # group 1 never configured: schedule type NOT_SET (0x55), power 0
+                b = bytes([0, 0, 0, 0, 0x55, 0, 0, 0, 0, 100, 0, 0])
             sim.set_bytes(base, b)
         for gi, base in enumerate((47515, 47519, 47523, 47527)):
             sim.set_bytes(base, bytes([rnd.randrange(24), rnd.randrange(60), rnd.randrange(24), rnd.randrange(60)]) +
@@ -55,9 +57,13 @@ def build_sim(tpl, seed, owner):
         sim.regs[47510] = rnd.randrange(0, 10000)
         sim.regs[45356] = rnd.randrange(0, 100)
         sim.set_bytes(45200, bytes([24, 5, 17, 12, 30, 15]))
+        if tpl == "ETc":                # the inverter's clock was never set: an impossible date in the runtime block
+            sim.set_bytes(35100, bytes(6))
         return sim
-    if tpl in ("DT", "DTu"):
+    if tpl in ("DT", "DTu", "DTc"):
         sim = models.dt_sim(owner, tag=rnd.choice(("DTU", "DSN")), rnd=rnd, style="random")
+        if tpl == "DTc":
+            sim.set_bytes(30100, bytes(6))
         if tpl == "DTu":                # undefined (all-ones) counters and values on this inverter
             for a in list(range(30195, 30201)) + list(range(30127, 30148)):
                 sim.regs[a] = 0xFFFF
@@ -329,13 +335,13 @@ def directed_scenarios(seed):
     out = []
     ec = ["set_operation_mode", {"mode": "ECO_CHARGE"}, 40, 80]
     rr = [["read_runtime_data"]]
-    for a, b, ca, cb in (("DT", "DTu", 0, 0), ("DTu", "DT", 0, 0), ("ET205", "ETf", 0, 0), ("ETf", "ET205", 0, 0), ("ET205", "ET205", 0x11, 0),
+    for a, b, ca, cb in (("DTc", "ET205", 0, 0), ("ETc", "DT", 0, 0), ("ETc", "ET205", 0, 0), ("DTc", "DT", 0, 0), ("DT", "DTu", 0, 0), ("DTu", "DT", 0, 0), ("ET205", "ETf", 0, 0), ("ETf", "ET205", 0, 0), ("ET205", "ET205", 0x11, 0),
                          ("ET205", "DT", 0x7F, 0), ("DT", "DT", 0, 0x25), ("ESv1", "ESv1", 0, 0x33)):
         for calls_a, calls_b in ((rr, rr), (rr + [["read_setting", "grid_export_limit"]], rr)):
             out.append({"seed": f"{seed}:dirR:{a}:{b}:{len(out)}", "n_random_merges": 0, "n_concurrent": 1,
                         "objects": [{"template": a, "port": 8899, "seed": f"{seed}:rA{len(out)}", "calls": calls_a, "comm": ca},
                                     {"template": b, "port": 8899, "seed": f"{seed}:rB{len(out)}", "calls": calls_b, "comm": cb}]})
-    for a, b in (("ET745", "ET205g"), ("ET745", "ET205"), ("ET205", "ET745"), ("ESv2", "ESv2g"), ("ET745", "ETv1"), ("ESv2", "ET205g"),
+    for a, b in (("ET745", "ET205u"), ("ESv2", "ET205u"), ("ET205u", "ET745"), ("ET745", "ET205g"), ("ET745", "ET205"), ("ET205", "ET745"), ("ESv2", "ESv2g"), ("ET745", "ETv1"), ("ESv2", "ET205g"),
                  ("ET205g", "ET745"), ("ESv1", "ESv1"), ("ET205", "ET205")):
         for ca in ([ec], [["read_setting", "eco_mode_1"]], [["read_setting", "eco_mode_1"], ec]):
             for cb in ([ec], [["read_setting", "eco_mode_1"], ["read_setting", "eco_mode_2"]], [["set_operation_mode", {"mode": "ECO_DISCHARGE"}, 30]]):
